@@ -1,25 +1,49 @@
 import Spine.Feature
 open Spine.Feat
+/-! Line protocol for the feature-creation model (C07, GetOrAddFeature / NextFeatureId on one entity).
+    `cfg recheck 0|1` selects the member (0 = code as written, 1 = creation looks up again under the lock).
+    `get op t r` is a call nothing overlaps; `lookup op t r` / `create op` are the two events of an overlapping call.
+    Answers: the feature number the call returned (`get`, `create`, `lookup` on a hit) or `miss`. -/
+structure D where
+  recheck : Bool := false
+  s : St := {}
 
-def answer (s : St) (ws : List String) : St × String :=
+def resOf (s : St) (op : Nat) : String :=
+  match s.res.find? (·.1 = op) with
+  | some (_, f) => toString f.id
+  | none => "none"
+
+def answer (d : D) (ws : List String) : D × String :=
   match ws with
-  | ["get", t, r] =>
-    let s' := step s (.getOrAdd t.toNat! r.toNat!)
-    (s', match s'.feats.find? (fun f => f.typ = t.toNat! && f.role = r.toNat!) with | some f => toString f.id | none => "none")
-  | ["next"] => (step s .nextId, toString s.nextId)
-  | ["feats"] => (s, if s.feats.isEmpty then "." else ",".intercalate (s.feats.map fun f => s!"{f.id}:{f.typ}:{f.role}"))
-  | _ => (s, "bad-op")
+  | ["cfg", "recheck", b] => ({ d with recheck := b == "1" }, "ok")
+  | ["reset"] => ({ d with s := {} }, "ok")
+  | ["get", op, t, r] => match op.toNat?, t.toNat?, r.toNat? with
+    | some op, some t, some r =>
+      let s' := step d.recheck { d.s with res := d.s.res.filter (·.1 ≠ op) } (.getOrAdd op t r)
+      ({ d with s := s' }, resOf s' op)
+    | _, _, _ => (d, "bad-op")
+  | ["lookup", op, t, r] => match op.toNat?, t.toNat?, r.toNat? with
+    | some op, some t, some r =>
+      let s' := step d.recheck { d.s with res := d.s.res.filter (·.1 ≠ op) } (.lookup op t r)
+      ({ d with s := s' }, if s'.missed.any (·.1 = op) then "miss" else resOf s' op)
+    | _, _, _ => (d, "bad-op")
+  | ["create", op] => match op.toNat? with
+    | some op =>
+      if d.s.missed.any (·.1 = op) then
+        let s' := step d.recheck d.s (.create op)
+        ({ d with s := s' }, resOf s' op)
+      else (d, "not-missed")
+    | none => (d, "bad-op")
+  | ["next"] => ({ d with s := step d.recheck d.s .nextId }, toString d.s.nextId)
+  | ["feats"] => (d, if d.s.feats.isEmpty then "." else ",".intercalate (d.s.feats.map fun f => s!"{f.id}:{f.typ}:{f.role}"))
+  | _ => (d, "bad-op")
 
-partial def loop (h : IO.FS.Stream) (s : St) : IO Unit := do
+partial def loop (h out : IO.FS.Stream) (d : D) : IO Unit := do
   let line ← h.getLine
-  if line.isEmpty then return ()
-  let ws := (line.trimAscii.toString.splitOn " ").filter (· ≠ "")
-  match ws with
-  | ["reset"] => IO.println "ok"; (← IO.getStdout).flush; loop h {}
-  | _ =>
-    let (s', out) := answer s ws
-    IO.println out
-    (← IO.getStdout).flush
-    loop h s'
+  if line.isEmpty then out.flush; return ()
+  let (d', ans) := answer d ((line.trimAscii.toString.splitOn " ").filter (· ≠ ""))
+  out.putStrLn ans
+  out.flush
+  loop h out d'
 
-def main : IO Unit := do loop (← IO.getStdin) {}
+def main : IO Unit := do loop (← IO.getStdin) (← IO.getStdout) {}
